@@ -16,7 +16,7 @@ from common import Report
 
 # (events, jobs alive, procs per job, launches)
 QUICK = {"exhaustive": (3, 2, 2, 2), "deep": (6, 2, 3, 3), "deep_budget": 12000, "walk": (9, 3, 3, 4), "walks": 12000}
-THOROUGH = {"exhaustive": (4, 2, 2, 2), "deep": (8, 3, 3, 3), "deep_budget": 1500000, "walk": (11, 3, 3, 5), "walks": 40000}
+THOROUGH = {"exhaustive": (4, 2, 2, 2), "deep": (8, 3, 3, 3), "deep_budget": 400000, "walk": (11, 3, 3, 5), "walks": 40000}
 
 
 def run_shards(harness, argsets):
